@@ -12,7 +12,7 @@ CLAUSES = {
     "dead-stay-dead": "alive after the step implies alive before it",
     "out-of-grid-dies": "a particle whose move would leave the valid region is dead (and inactive) afterwards and is not moved",
     "land-cancels": "a move onto a land cell is cancelled: the position is unchanged",
-    "inactive-stays": "inactive particles are not moved horizontally",
+    "inactive-stays": "inactive particles are not moved horizontally, stay inactive and are not killed by the move they do not make",
     "no-later-record": "through the real main loop and output: a particle appears in the records up to the step whose move would leave the valid region and in no later record (also when nobody is left alive), sparse and dense",
     "moves-as-prescribed": "any other particle ends at X + U_eff dt/dx, Y + V_eff dt/dy (advection + diffusion)",
 }
@@ -22,7 +22,7 @@ BOUNDS = {
 }
 ASSUMES = ["pre-state: every particle (alive or not) sits in a sea cell of the valid region (what the previous step established)",
            "effective velocity of a scheme = the tableau weights proven in C01"]
-OUTSIDE = "NaN/inf velocities; the kill of an inactive particle whose hypothetical move leaves the grid is not judged"
+OUTSIDE = "NaN/inf velocities"
 
 
 def scenarios(tier):
@@ -155,7 +155,7 @@ def run(W, p):
     W.patch_rng(T)
     T.update()
     X1, Y1, A1, Act1 = W.tolist(S.X), W.tolist(S.Y), W.tolist(S.alive), W.tolist(S.active)
-    dx = 800
+    dx, dy = 800, 1600  # the grid file has pm = 1/800, pn = 1/1600
     bw = [W.frac(*b) if isinstance(b, tuple) else b for b in BWEIGHTS[adv]]
     skel = []
     for n in range(npart):
@@ -165,20 +165,21 @@ def run(W, p):
             sd = _sqrt(W, 2 * D / dt)
             ue = ue + sd * W.xi(0, n)
             ve = ve + sd * W.xi(1, n)
-        xc, yc = x[n] + ue * dt / dx, y[n] + ve * dt / dx
+        xc, yc = x[n] + ue * dt / dx, y[n] + ve * dt / dy
         out = not W.truth(in_valid(W, grid, xc, yc))
         same = W.all([W.eq(X1[n], x[n]), W.eq(Y1[n], y[n])])
         W.prove(W.implies(A1[n], alive0[n]), "dead-stay-dead", dict(particle=n))
         # alive => in valid region and at sea (at the position after the step)
         ca = (_rint(W, X1[n]), _rint(W, Y1[n])) if W.truth(in_valid(W, grid, X1[n], Y1[n])) else None
         W.prove(W.implies(A1[n], W.eq(mask[ca[1]][ca[0]], 1) if ca is not None else False), "alive-in-water", dict(particle=n, cell=ca))
+        if not W.truth(active0[n]):
+            # an inactive particle makes no move: it stays where it is and is not killed by a current it does not feel
+            W.prove(W.all([same, W.eq(A1[n], alive0[n]), W.not_(Act1[n])]), "inactive-stays", dict(particle=n, hypothetical_move_leaves_grid=out))
+            skel.append("inactive")
+            continue
         if out:
             W.prove(W.all([W.not_(A1[n]), W.not_(Act1[n]), same]), "out-of-grid-dies", dict(particle=n))
             skel.append("out")
-            continue
-        if not W.truth(active0[n]):
-            W.prove(same, "inactive-stays", dict(particle=n))
-            skel.append("inactive")
             continue
         cc = (_rint(W, xc), _rint(W, yc))
         if W.truth(W.eq(mask[cc[1]][cc[0]], 1)):
